@@ -902,3 +902,50 @@ def phase_split_problems(raw_repo: Repo, fi: FuncInfo, state_attrs: Optional[Set
                      'parts of one message come from two states of it -- pass the value in as an argument, or read everything lazily'
                      % (fi.qualname, sorted(eager)[0], eager[sorted(eager)[0]], lazy[a0][0], a0, lazy[a0][1]))
     return probs, n_lazy
+
+
+# --------------------------------------------------------------------------- pydicom API facts read from its source
+
+_PYDICOM_UID_RAISING: Optional[Dict[str, str]] = None
+
+
+def pydicom_uid_raising_properties() -> Dict[str, str]:
+    """{property of pydicom.uid.UID: reason} for the properties that can raise -- their body has a ``raise`` or reads another
+    such property of ``self`` -- read from the installed pydicom/uid.py by parsing, not importing.  (``UID.is_implicit_VR``,
+    ``is_little_endian``, ... raise ValueError for a UID that is not a known transfer syntax: a private one, say.)"""
+    global _PYDICOM_UID_RAISING
+    if _PYDICOM_UID_RAISING is not None:
+        return _PYDICOM_UID_RAISING
+    import importlib.util
+    import os
+    spec = importlib.util.find_spec('pydicom')
+    if spec is None or not spec.submodule_search_locations:
+        raise AnalysisError('pydicom is not installed in this interpreter: cannot read pydicom/uid.py')
+    path = os.path.join(list(spec.submodule_search_locations)[0], 'uid.py')
+    with open(path) as f:
+        tree = ast.parse(f.read())
+    props: Dict[str, ast.FunctionDef] = {}
+    for c in tree.body:
+        if isinstance(c, ast.ClassDef) and c.name == 'UID':
+            for m in c.body:
+                if isinstance(m, ast.FunctionDef) and any(ast.unparse(d) == 'property' for d in m.decorator_list):
+                    props[m.name] = m
+    if not props:
+        raise AnalysisError('%s: class UID with properties not found' % path)
+    out: Dict[str, str] = {}
+    for n_, m in props.items():
+        if any(isinstance(x, ast.Raise) for x in ast.walk(m)):
+            out[n_] = 'raises in its own body'
+    changed = True
+    while changed:
+        changed = False
+        for n_, m in props.items():
+            if n_ in out:
+                continue
+            for x in ast.walk(m):
+                if isinstance(x, ast.Attribute) and isinstance(x.value, ast.Name) and x.value.id == 'self' and x.attr in out:
+                    out[n_] = 'reads self.%s' % x.attr
+                    changed = True
+                    break
+    _PYDICOM_UID_RAISING = out
+    return out
